@@ -300,6 +300,14 @@ def judge_adj(inp, obs, lr):
             return {"expected": "numeric array", "observed": "object dtype", "tags": dict(tags0, site=k, object_dtype=True),
                     "property_failure": True}
         m = C.dec(r["ok"], fld)
+        if k == "killing":
+            # the invariant form is determined up to a non-zero factor (trace form vs. the Killing form proper, 2n·trace)
+            got = toarr(obs[k]).astype(complex)
+            nz = np.abs(m) > 0
+            fac = got[nz][0] / m[nz][0] if got.shape == m.shape and nz.any() else 0
+            if fac == 0 or not same(got, fac * m, 1e-8):
+                return {"expected": r["ok"], "observed": toarr(obs[k]).tolist(), "tags": dict(tags0, site=k)}
+            continue
         if not same(toarr(obs[k]), m, 1e-8):
             return {"expected": r["ok"], "observed": toarr(obs[k]).tolist(), "tags": dict(tags0, site=k)}
     return None
@@ -596,7 +604,7 @@ def run_struct(inp):
         for i in range(n):
             for j in range(n):
                 tau[i * n + j, j * n + i] = 1
-        return {"sln": float(np.max(np.abs(Ad.T @ kf @ Ad - kf))), "gln": float(np.max(np.abs(G.T @ tau @ G - tau))),
+        return {"sln": float(np.max(np.abs(Ad.T @ kf @ Ad - kf)) / max(1.0, float(np.max(np.abs(kf))))), "gln": float(np.max(np.abs(G.T @ tau @ G - tau))),
                 "scale": float(1 + np.max(np.abs(Ad)) ** 2), "sym": float(np.max(np.abs(kf - kf.T)))}
     if w == "realify":
         Rm = np.asarray(lie.slc_to_slr(A))
